@@ -16,6 +16,11 @@ payload:
                         event-time request); an out-state is then a function of its in-state even if it
                         draws random numbers (extension beyond the property's quantifier)
   timeout    seconds before the run is declared deadlocked
+  slow_out   (multi only) {"seed": s, "prob": p, "per_worker": k, "min_s": a, "max_s": b}: the worker-side out-state
+             computation (send_out_state inside the worker, i.e. between the continue event and the send on the pipe) of
+             some calls — chosen from (s, handler index, number of the handler's out-state call), at most k per worker —
+             takes a..b SECONDS longer (longer than any plausible mediator-side timeout): an out-state requested ahead
+             of time is then still in flight when another handler's event is committed and trashes it.
   pause      (multi only) schedule perturbation AT the worker's synchronisation operations:
              {"seed": s, "prob": p, "min_ms": a, "max_ms": b, "ops": ["release", "send", "clear", "wait"]}
              the objects handed to run_in_process (semaphore, pipe end, start/continue events) are wrapped by
@@ -149,6 +154,20 @@ DRAWS_ET = multiprocessing.RawArray("i", N_MAX)
 WORKER_ERR = multiprocessing.RawArray("i", N_MAX)   # worker loop left by an exception
 PAUSES = multiprocessing.RawArray("i", 4 * N_MAX)   # per handler: number of pauses, last op code, last op counter, in-pause
 PAUSE = P.get("pause")
+SLOW = P.get("slow_out")
+SLOWED = multiprocessing.RawArray("i", N_MAX)       # per handler: out-state computations delayed by 0.3-0.8 s
+SLOW_MS = multiprocessing.RawArray("i", N_MAX)      # per handler: total such delay in ms
+
+
+def slow_out_delay(idx, count):
+    """Seconds by which the count-th out-state computation of worker idx is prolonged (0.0: not chosen)."""
+    if not SLOW or SLOWED[idx] >= int(SLOW.get("per_worker", 1)):
+        return 0.0
+    h = hashlib.sha256(("s|%d|%d|%d" % (int(SLOW["seed"]), idx, count)).encode()).digest()
+    if int.from_bytes(h[:4], "big") / 2.0 ** 32 >= float(SLOW.get("prob", 0.2)):
+        return 0.0
+    lo, hi = float(SLOW.get("min_s", 0.3)), float(SLOW.get("max_s", 0.8))
+    return lo + (hi - lo) * int.from_bytes(h[4:8], "big") / 2.0 ** 32
 OPS = {"release": 1, "send": 2, "clear": 3, "wait": 4}
 
 
@@ -227,6 +246,12 @@ def instrument_handler_calls(h, idx, in_worker):
             if in_worker and MAXD > 0:
                 d = delay(idx, kind, CALLS_ET[idx] if kind == "et" else CALLS_OS[idx])
                 if d > 0:
+                    time.sleep(d)
+            if in_worker and kind == "os":
+                d = slow_out_delay(idx, CALLS_OS[idx])
+                if d > 0:
+                    SLOWED[idx] += 1
+                    SLOW_MS[idx] += int(d * 1000)
                     time.sleep(d)
             return fn(*args)
         finally:
@@ -469,6 +494,8 @@ def main():
     out["draws_os"] = list(DRAWS_OS[:n])
     out["draws_et"] = list(DRAWS_ET[:n])
     out["worker_err"] = list(WORKER_ERR[:n])
+    if SLOW:
+        out["slowed_out_states"] = [[i, SLOWED[i], SLOW_MS[i]] for i in range(n) if SLOWED[i]]
     if PAUSE:
         opn = {v: k for k, v in OPS.items()}
         out["pauses"] = [{"worker": i, "n": PAUSES[4 * i], "last_op": opn.get(PAUSES[4 * i + 1]),
